@@ -88,7 +88,7 @@ def run_progress(case):
 
 
 def enum_exh(tier):
-    L = 6 if tier == "quick" else 8
+    L = 6 if tier == "quick" else 7
     cases = []
     for name, p in C03.EXH_ELEMS:
         e = streams.ELEMS[name]
@@ -274,5 +274,5 @@ def subchecks():
         Sub("packet", run_packet, strategy=st_packet, examples=(800, 16000),
             rule="packet elements: hold rule (final-word junk bytes masked) and bounded progress / no starvation under endless back-to-back packets"),
         Sub("exhaustive-hold", run_hold, enum=enum_exh, exhaustive=True, tiers=("thorough",),
-            rule="hold rule for ALL producer x consumer schedules of length 8, 16 element configurations"),
+            rule="hold rule for ALL producer x consumer schedules of length 7, 16 element configurations"),
     ]
